@@ -54,6 +54,8 @@ FMTS = {
     "F3": ({"fmt": "%.3f", "column_fmt": {0: "%.6f"}}, 6),
     "F4": ({"fmt": "%10.4f", "len_numeric_field": -1}, 4),
     "F5": ({"mnemonics_header": True, "data_width": 40, "header_width": 70}, 5),
+    # coarse general format, finer format for the index column: the header must follow the index column as written
+    "F6": ({"fmt": "%.1f", "column_fmt": {0: "%.4f"}}, 4),
 }
 HEADER_DECIMALS = 5          # update_start_stop_step formats with "%.5f"
 NWRITES = 3
